@@ -69,6 +69,8 @@ fn main() {
     let code = match args.id.as_str() {
         "C03" => props::structural::run("C03", &args),
         "C04" => props::structural::run("C04", &args),
+        "C06" => props::gcprops::run("C06", &args),
+        "C07" => props::gcprops::run("C07", &args),
         "C16" => props::traverse::run(&args),
         "C16-depth-worker" => props::traverse::depth_worker(),
         "C15" => props::builder::run(&args),
